@@ -75,6 +75,7 @@ func TestC17_JobsImmutableAndRunsCarryCaller(t *testing.T) {
 		snapshotsChanged := 0
 		okRuns, failRuns := 0, 0
 		delegatedRuns := 0
+		claimedOther := false
 		modWithPayload, fixedWithPayload, failBetween := false, false, false
 		lastWasFail := false
 
@@ -335,7 +336,10 @@ func TestC17_JobsImmutableAndRunsCarryCaller(t *testing.T) {
 				id := pickID(t)
 				raw := rapid.SampledFrom([][]byte{{0xfe, 0xed}, {0x01}, {}}).Draw(t, "payload")
 				cctx, write := c.Ctx().CacheContext()
-				_, _, _, err := messenger.DispatchMsg(cctx, ca, "", schedbindingstypes.Message{ExecuteJob: &schedbindingstypes.ExecuteJob{JobID: id, Payload: raw}})
+				// the binding message has a free-text "sender" field the contract fills as it likes: the identity that
+				// requested the run is the calling contract whatever it claims there
+				claimed := rapid.SampledFrom([]string{"", "", ca.String(), users[0].Addr.String(), users[1].Addr.String(), contracts[0].String(), contracts[len(contracts)-1].String()}).Draw(t, "claimedSender")
+				_, _, _, err := messenger.DispatchMsg(cctx, ca, "", schedbindingstypes.Message{ExecuteJob: &schedbindingstypes.ExecuteJob{JobID: id, Sender: claimed, Payload: raw}})
 				ok := err == nil
 				if ok {
 					write()
@@ -344,7 +348,10 @@ func TestC17_JobsImmutableAndRunsCarryCaller(t *testing.T) {
 					t.Fatalf("block: %v", berr)
 				}
 				s := "0x" + hex.EncodeToString(raw)
-				desc := fmt.Sprintf("contractExecute(%x..,%q,%x)", ca[:2], id, raw)
+				desc := fmt.Sprintf("contractExecute(%x..,%q,%x,claims=%.12s)", ca[:2], id, raw, claimed)
+				if claimed != "" && claimed != ca.String() {
+					claimedOther = true
+				}
 				log = append(log, fmt.Sprintf("%s=%v", desc, ok))
 				if jobs[id] != nil && !jobs[id].modifiable {
 					fixedWithPayload = true
@@ -366,6 +373,9 @@ func TestC17_JobsImmutableAndRunsCarryCaller(t *testing.T) {
 		}
 		if delegatedRuns > 0 {
 			labels = append(labels, "delegatedRun")
+		}
+		if claimedOther {
+			labels = append(labels, "contractClaimedAnotherSender")
 		}
 		if snapshotsChanged > 0 {
 			labels = append(labels, "validatorSetChanged")
